@@ -240,6 +240,13 @@ class Result:
     if len(self.samples) < cap:
       self.samples.append(s)
 
+  def known(self, key):
+    """Is (this property, key) a recorded known finding?  Obligations that summarise an oracle must stay
+    discharged when only recorded classes disagree (each is still reported through violation())."""
+    if not hasattr(self, "_known"):
+      self._known = {(k["property"], k["key"]) for k in load_known().get("findings", [])}
+    return (self.pid, key) in self._known
+
   def violation(self, key, what, data=None, found_input=True):
     self.violations.append({"key": key, "what": what, "data": data, "found_input": found_input})
 
